@@ -4,7 +4,7 @@ import itertools
 DRIVER = "c01"
 MODEL = "C01"
 MODEL_QUALID = "Model.Bulkhead.run_script"
-FORMAT = ("script [cap; max_wait (-1 none, >= 10^15 = Duration::MAX); n + 1000*flags; (op a b)*] op 1=Poll a 2=Drop a 3=Advance a "
+FORMAT = ("script [cap (>= 10^15: sentinel for usize::MAX / MAX_PERMITS+1 / MAX_PERMITS, probe of 8 callers); max_wait (-1 none, >= 10^15 = Duration::MAX); n + 1000*flags; (op a b)*] op 1=Poll a 2=Drop a 3=Advance a "
           "(durations: a value below 2^40 is in ms, 2^40 + k is k ns) "
           "4=Complete a b(0 ok,1 err,2 panic in the response future,3 synchronous panic inside the inner service's call()) "
           "5=Call a (create the call future without polling it) 6=call() for every caller still without a future, then drop every service handle; events on caller ids outside 0..n-1 are ignored; "
@@ -21,6 +21,9 @@ ASSUMPTIONS = ["tokio's timer wheel has millisecond resolution: a wait deadline 
 # scripts on which the REAL code violates the property (none known)
 KNOWN_DEFECT = []
 DMAX = 10 ** 18
+CAP_SENTINEL = 10 ** 15       # script capacity >= this: max_concurrent_calls at/above tokio's Semaphore::MAX_PERMITS
+PROBE_BIG = 8
+MAX_PERMITS = (2 ** 64 - 1) >> 3
 DUR_FLAG = 1 << 40
 MS = 10 ** 6
 
@@ -46,11 +49,20 @@ def header(s):
     return s[0], s[1], nf % 1000, nf // 1000
 
 
+def probe_len(cap):
+    return PROBE_BIG if cap >= CAP_SENTINEL else cap + 1
+
+
+def real_cap(cap):
+    """the capacity the bulkhead must have: the configured one, at most what tokio's semaphore can hold"""
+    return MAX_PERMITS if cap >= CAP_SENTINEL else cap
+
+
 def events(s):
     cap, mw, n, flags = header(s)
     evs = [tuple(s[i:i + 3]) for i in range(3, len(s) - (len(s) - 3) % 3, 3)]
     evs = [e for e in evs if e[0] in (3, 6) or (e[0] in (1, 2, 4, 5) and 0 <= e[1] < n)]
-    evs += [(2, i, 0) for i in range(n)] + [(1, i, 0) for i in range(n, n + cap + 1)]
+    evs += [(2, i, 0) for i in range(n)] + [(1, i, 0) for i in range(n, n + probe_len(cap))]
     return cap, mw, n, evs
 
 
@@ -58,7 +70,16 @@ def decode(s, t):
     cap, mw, n, evs = events(s)
     if len(t) != ROWLEN * len(evs):
         return None
-    return cap, mw, n, [(e, t[ROWLEN * k:ROWLEN * k + ROWLEN]) for k, e in enumerate(evs)]
+    return real_cap(cap), mw, n, [(e, t[ROWLEN * k:ROWLEN * k + ROWLEN]) for k, e in enumerate(evs)]
+
+
+def panicked(s, t):
+    """the driver's whole run panicked (trace -999): building the layer, call(), or anything outside a caught poll"""
+    if t == [-999]:
+        return ("the layer panicked: building / calling the bulkhead with max_concurrent_calls = %s, max_wait %s panicked outside any poll"
+                % ("usize::MAX" if s[0] == CAP_SENTINEL else ("MAX_PERMITS+%d" % (2 - (s[0] - CAP_SENTINEL))) if s[0] > CAP_SENTINEL else s[0], s[1]))
+    return None
+
 
 
 def started_ids(ids):
@@ -109,6 +130,10 @@ def corpus():
         # events on ids outside 0..n-1 are ignored by model, driver and decoder alike
         [1, -1, 1, 1, 7, 0, 4, -1, 0, 2, 1, 0, 5, 3, 0, 1, 0, 0, 9, 0, 0],
         sequential(None, 1, -1, 60, handle=1), sequential(None, 2, 5, 55, handle=2),
+        # max_concurrent_calls at / above tokio's Semaphore::MAX_PERMITS ("no limit"): clamped, nobody is ever refused (fix 40a6972)
+        [CAP_SENTINEL, -1, 3, 1, 0, 0, 1, 1, 0, 1, 2, 0, 4, 1, 0, 1, 1, 0],
+        [CAP_SENTINEL + 1, 0, nf(4, handle=1), 1, 0, 0, 1, 1, 0, 1, 2, 0, 1, 3, 0, 2, 2, 0, 4, 0, 3],
+        [CAP_SENTINEL + 2, 5, nf(2, listen=1, keep=1), 1, 0, 0, 3, 5, 0, 1, 1, 0, 4, 0, 2, 1, 0, 0],
         # a waiter that cannot get a slot ends with the TIMEOUT error (and nothing else), zero wait and after a real wait
         [1, 0, 2, 1, 0, 0, 1, 1, 0],
         [1, 7, 3, 1, 0, 0, 1, 1, 0, 5, 2, 0, 3, 3, 0, 1, 2, 0, 3, 4, 0, 1, 1, 0, 1, 2, 0, 3, 3, 0, 1, 2, 0],
@@ -182,6 +207,8 @@ def random_config(rng, maxn):
     if rng.random() < 0.15:
         listen = 1
     keep = 1 if rng.random() < 0.3 else 0
+    if route == 0 and rng.random() < 0.03:
+        cap = CAP_SENTINEL + rng.choice([0, 0, 1, 2])
     if route == 0 and rng.random() < 0.08:
         mw = rng.choice([us(1), us(300), us(999), us(1500), us(2300)])
     return cap, mw, n, nf(n, route, handle, listen, keep)
@@ -372,7 +399,7 @@ def nontrivial(s, t):
     if not d:
         return True
     cap, mw, n, evt = d
-    for (e, o) in evt[:-(n + cap + 1)]:
+    for (e, o) in evt[:-(n + probe_len(s[0]))]:
         if e[0] == 1 and o[0] == 0 and o[1] == 0:
             return True  # pending without having started: queued
         if o[0] in (3, 5):
@@ -384,7 +411,7 @@ def classify(s, t):
     d = decode(s, t)
     cap, mw, n, flags = header(s)
     sub = any(DUR_FLAG <= v < 10 ** 15 for v in [mw] + [s[i + 1] for i in range(3, len(s) - 2, 3) if s[i] == 3])
-    out = (["sub_millisecond"] if sub else []) + ["cap%s" % (cap if cap <= 3 else ("4to8" if cap <= 8 else "%d" % cap if cap in (10, 25, 50, 200) else "9plus")),
+    out = (["sub_millisecond"] if sub else []) + ["cap%s" % ("_above_max_permits" if cap >= CAP_SENTINEL else cap if cap <= 3 else ("4to8" if cap <= 8 else "%d" % cap if cap in (10, 25, 50, 200) else "9plus")),
            "maxwait_%s" % ("none" if mw < 0 else ("zero" if mw == 0 else ("duration_max" if mw >= 10 ** 15 else ("sub_ms" if mw >= DUR_FLAG else ("finite" if mw <= 1000 else "huge"))))),
            "route%d" % (flags % 8), "handle%d" % (flags // 8 % 4)]
     if flags // 32 % 2:
@@ -398,7 +425,7 @@ def classify(s, t):
         for r, name in ((1, "ok"), (2, "inner_err"), (3, "timeout"), (5, "panic")):
             if r in rs:
                 out.append("saw_" + name)
-        body = d[3][:-(d[2] + d[0] + 1)]
+        body = d[3][:-(d[2] + probe_len(cap))]
         if any(e[0] == 2 for (e, _) in body):
             out.append("has_cancel")
         if any(e[0] == 6 for (e, _) in body):
